@@ -355,7 +355,7 @@ def _strategy():
                         tgt = pick(live + [t])
                         lp = ' { create property lp0 -> str }' if i(0, 2) == 0 else ''
                         body.append(f"create {'multi ' if multi else ''}link {ln} -> {tgt}{lp}")
-                        links[ln] = dict(multi=multi, lps={'lp0'} if lp else set(), computed=False)
+                        links[ln] = dict(multi=multi, lps={'lp0'} if lp else set(), computed=False, tgt=tgt)
                 abstract = i(0, 5) == 0
                 stmts.append(['create-type', f"create {'abstract ' if abstract else ''}type {t}"
                               + (f' extending {base}' if base else '')
@@ -367,6 +367,23 @@ def _strategy():
             allp = dict(T['props'])
             alll = dict(T['links'])
             k = i(0, 24)
+            def subtypes_of(x):
+                out, todo = [], [x]
+                while todo:
+                    y = todo.pop()
+                    for n2, X in types.items():
+                        if y in X['bases'] and n2 not in out:
+                            out.append(n2)
+                            todo.append(n2)
+                return out
+            narrow = [(ln, st_) for ln, L in alll.items() if L.get('tgt') in types
+                      for st_ in subtypes_of(L['tgt'])]
+            if narrow and i(0, 3) == 0:
+                # narrow a link to a subtype of its target; the USING expression can be empty
+                ln, st_ = pick(narrow)
+                stmts.append(['link-set-type', f'alter type {t} alter link {ln} set type {st_} using (.{ln}[is {st_}])'])
+                alll[ln]['tgt'] = st_
+                continue
             hot = [ln for ln, L in alll.items() if L.get('multi') and L.get('lps')]
             if hot and i(0, 4) == 0:
                 # a multi link that carries link properties is narrowed to single
@@ -386,8 +403,9 @@ def _strategy():
                 ln = pick(LINKS)
                 multi = i(0, 1) == 0
                 lp = ' { create property lp0 -> str }' if i(0, 1) == 0 else ''
-                stmts.append(['add-link', f"alter type {t} create {'multi ' if multi else ''}link {ln} -> {pick(live)}{lp}"])
-                T['links'].setdefault(ln, dict(multi=multi, lps={'lp0'} if lp else set(), computed=False))
+                tgt = pick(live)
+                stmts.append(['add-link', f"alter type {t} create {'multi ' if multi else ''}link {ln} -> {tgt}{lp}"])
+                T['links'].setdefault(ln, dict(multi=multi, lps={'lp0'} if lp else set(), computed=False, tgt=tgt))
             elif k == 5 and allp:
                 p = pick(allp)
                 stmts.append(['drop-prop', f'alter type {t} drop property {p}'])
